@@ -178,3 +178,18 @@ def build_system(spec, route="ctor"):
 
 def time_obj(q, owner_sys, route="ctor"):
     return qv_obj(q, owner_sys, DIM_TIME, route)
+
+
+# ---- scripts from specs (used by the child worker) ----------------------------------------------
+
+def build_script(sc):
+    """sc: {"sys": system spec, "route", "units": unit system dict, "t_sample": [floats, script units],
+            "time_step", "t_max" (float or None), "policy", "interval", "seed", "mode"}"""
+    system = build_system(sc["sys"], sc.get("route", "ctor"))
+    kw = {}
+    if sc.get("t_max") is not None:
+        kw["t_max"] = sc["t_max"]
+    return S.RDScript(system, list(sc["t_sample"]), time_step=sc.get("time_step", 1e-3),
+                      sampling_policy=sc.get("policy", "on_t_sample"),
+                      sampling_interval=sc.get("interval", 1.0), rng_seed=sc.get("seed"),
+                      init_state_processing=sc.get("mode", "auto"), units_system=US(sc["units"]), **kw)
